@@ -843,6 +843,17 @@ func (d *l3Driver) exportReinit() {
 		d.labels["export-skipped"]++
 		return
 	}
+	// Excluded by construction (known finding kf-node-state-not-in-genesis): the super-node round-robin
+	// cursor has no genesis field, so a chain re-initialised while the cursor is not 0 selects other
+	// providers from then on. The difference in the cursor itself is reported by the known finding;
+	// its downstream consequences would end every such case, so these exports are not made (counted).
+	for k, v := range s.Last.NodeRaw {
+		if strings.HasPrefix(k, nodetypes.NodeRoundKeyPrefix) && len(v) > 0 && v[0] != 0 {
+			s.Excluded["export-while-super-node-cursor-is-not-zero"]++
+			d.labels["export-skipped-nonzero-cursor"]++
+			return
+		}
+	}
 	orig := d.cl.Reps[0]
 	// export = state after the last commit; the block the cluster has just opened is still empty
 	ex := d.cl.call(orig, &replica.Req{Op: "export"})
